@@ -265,64 +265,79 @@ def v_rubiks(inst: Any, p: Dict[str, Any], ctx: Dict[str, Any]) -> List[Problem]
 
 
 # --------------------------------------------------------------------------------------------- flat pack
-def _placements(block: np.ndarray, R: int, C: int) -> List[int]:
-    """Bit masks of every placement the environment allows: k quarter turns of the 3x3 array, top-left
-    corner at (row, col) with row <= R-3, col <= C-3 (docs/flat_pack.md, Action)."""
-    masks = set()
+def _placements(block: np.ndarray, R: int, C: int) -> List[Tuple[int, ...]]:
+    """Cell sets (flat indices) of every placement the environment allows: k quarter turns of the 3x3
+    array, top-left corner at (row, col) with row <= R-3, col <= C-3 (docs/flat_pack.md, Action)."""
+    out = set()
     for k in range(4):
         arr = np.rot90(block, -k)
-        cells = np.argwhere(arr != 0)
+        cells = [(int(a), int(b)) for a, b in np.argwhere(arr != 0)]
         for r in range(R - 2):
             for c in range(C - 2):
-                m = 0
-                for dr, dc in cells:
-                    m |= 1 << ((r + dr) * C + (c + dc))
-                masks.add(m)
-    return sorted(masks)
+                out.add(tuple(sorted((r + dr) * C + (c + dc) for dr, dc in cells)))
+    return sorted(out)
 
 
-def exact_cover(blocks: np.ndarray, R: int, C: int, node_cap: int = 400_000) -> Tuple[Optional[bool], int]:
-    """Is there a placement of every block (env placement rules) covering every cell exactly once?
-    Returns (answer or None when the node cap is hit, nodes expanded)."""
+def exact_cover(blocks: np.ndarray, R: int, C: int, node_cap: int,
+                windows: Optional[List[Optional[set]]] = None) -> Tuple[Optional[bool], int]:
+    """Is there a placement of every block (environment placement rule) covering every grid cell exactly
+    once?  Knuth's Algorithm X (columns: the R*C cells and the blocks; always branch on the column with the
+    fewest candidates).  `windows[b]` optionally restricts block b to placements inside a set of cells
+    (used only to find a certificate quickly).  Returns (True / False / None when the node cap is hit, nodes)."""
     B = len(blocks)
-    full = (1 << (R * C)) - 1
-    by_cell: List[List[List[int]]] = []  # block -> cell -> masks covering it
+    Y: Dict[Any, List[Any]] = {}
     for b in range(B):
-        per = [[] for _ in range(R * C)]
-        for m in _placements(blocks[b], R, C):
-            mm, i = m, 0
-            while mm:
-                if mm & 1:
-                    per[i].append(m)
-                mm >>= 1
-                i += 1
-        by_cell.append(per)
+        for cells in _placements(blocks[b], R, C):
+            if windows is not None and windows[b] is not None and not set(cells) <= windows[b]:
+                continue
+            Y[(b, cells)] = list(cells) + [("b", b)]
+    X: Dict[Any, set] = {c: set() for c in range(R * C)}
+    X.update({("b", b): set() for b in range(B)})
+    for r, cols in Y.items():
+        for c in cols:
+            X[c].add(r)
     nodes = 0
 
-    def rec(filled: int, used: int) -> Optional[bool]:
+    def select(r: Any) -> List[set]:
+        removed = []
+        for j in Y[r]:
+            for i in X[j]:
+                for k in Y[i]:
+                    if k != j:
+                        X[k].remove(i)
+            removed.append(X.pop(j))
+        return removed
+
+    def deselect(r: Any, removed: List[set]) -> None:
+        for j in reversed(Y[r]):
+            X[j] = removed.pop()
+            for i in X[j]:
+                for k in Y[i]:
+                    if k != j:
+                        X[k].add(i)
+
+    def rec() -> Optional[bool]:
         nonlocal nodes
-        if filled == full:
-            return used == (1 << B) - 1
+        if not X:
+            return True
         nodes += 1
         if nodes > node_cap:
             return None
-        cell = (~filled & full)
-        cell = (cell & -cell).bit_length() - 1
+        c = min(X, key=lambda col: len(X[col]))
+        if not X[c]:
+            return False
         capped = False
-        for b in range(B):
-            if used >> b & 1:
-                continue
-            for m in by_cell[b][cell]:
-                if m & filled:
-                    continue
-                r = rec(filled | m, used | (1 << b))
-                if r:
-                    return True
-                if r is None:
-                    capped = True
+        for r in sorted(X[c], key=lambda q: (q[0], q[1])):
+            rem = select(r)
+            res = rec()
+            deselect(r, rem)
+            if res:
+                return True
+            if res is None:
+                capped = True
         return None if capped else False
 
-    return rec(0, 0), nodes
+    return rec(), nodes
 
 
 def v_flat_pack(inst: Any, p: Dict[str, Any], ctx: Dict[str, Any]) -> List[Problem]:
@@ -354,13 +369,32 @@ def v_flat_pack(inst: Any, p: Dict[str, Any], ctx: Dict[str, Any]) -> List[Probl
         return out
     if (sizes == 0).any():
         return out
-    ans, nodes = exact_cover(blocks, R, C)
+    # 1. quick certificate: every block inside the 3x3 window its number suggests (row-major numbering)
     ctx["count"]["flatpack_exact_cover_searches"] += 1
-    ctx["count"]["flatpack_exact_cover_nodes"] += nodes
-    if ans is False:
-        out.append(("blocks-do-not-tile-grid", f"exact-cover search ({nodes} nodes) finds no tiling; blocks={blocks.tolist()}"))
-    elif ans is None:
-        ctx["count"]["flatpack_exact_cover_capped"] += 1
+    ans = None
+    if all(v is not None and 1 <= v <= B for v in ids) and len(set(ids)) == B:
+        wins = []
+        for v in ids:
+            rb, cb = divmod(v - 1, nc)
+            wins.append({(2 * rb + i) * C + (2 * cb + j) for i in range(3) for j in range(3)})
+        ans, nodes = exact_cover(blocks, R, C, 20_000, wins)
+        ctx["count"]["flatpack_exact_cover_nodes"] += nodes
+        if ans is not True:  # the layout the generator built is not placeable; another tiling may exist
+            ctx["count"]["flatpack_no_tiling_with_blocks_in_their_own_windows"] += 1
+            ctx["facts"]["no_tiling_with_blocks_in_their_own_windows"] = ctx["facts"].get(
+                "no_tiling_with_blocks_in_their_own_windows", 0) + 1
+    # 2. otherwise the unrestricted search decides
+    if ans is not True:
+        cap = p.get("node_cap") or (400_000 if B <= 6 else (20_000 if ctx.get("tier") == "quick" else 100_000))
+        ans, nodes = exact_cover(blocks, R, C, cap)
+        ctx["count"]["flatpack_exact_cover_nodes"] += nodes
+        if ans is False:
+            out.append(("blocks-do-not-tile-grid",
+                        f"exhaustive exact-cover search ({nodes} nodes) finds no way to place all blocks on the "
+                        f"{R}x{C} grid under the environment's placement rule; blocks={blocks.tolist()}"))
+        elif ans is None:
+            ctx["count"]["flatpack_exact_cover_undecided"] += 1
+            ctx["facts"]["exact_cover_undecided"] = ctx["facts"].get("exact_cover_undecided", 0) + 1
     am = np.asarray(inst.action_mask)
     if am.shape != (B, 4, R - 2, C - 2) or not am.all():
         out.append(("initial-action-mask", f"action_mask shape {am.shape} / not all True on the empty grid"))
